@@ -88,19 +88,15 @@ def run(fb, rep):
                     continue
                 enabled.append((b, c))
     rep.floor(R, "with_refinement call sites", n_sites, 2)
-    refines = [b for b in fb.bodies.values() if b.id.endswith("Typecheck::<'a, 'ast>::refines") and b.kind == "fn"]
-    if len(refines) != 1:
-        rep.anchor_lost(R, "Typecheck::refines")
-        return
-    rf = refines[0]
-    for b, c in enabled:
-        if b.id == rf.id:
-            rep.ok(R, "refinement enabled in Typecheck::refines only (%s)" % c.where())
-        else:
-            rep.violation(R, "refinement-enabled-elsewhere|%s" % b.id, "%s enables skolem refinement outside Typecheck::refines (no recording/reset discipline there)" % b.id, c.where())
-    if not any(b.id == rf.id for b, c in enabled):
-        rep.anchor_lost(R, "refines no longer enables refinement")
-        return
+    # the refining function is found by role: the one body that enables refinement (today Typecheck::refines)
+    if len({b.id for b, c in enabled}) != 1:
+        for b, c in enabled[1:]:
+            rep.violation(R, "refinement-enabled-elsewhere|%s" % b.id, "%s also enables skolem refinement (only one function may: the recording/reset discipline is checked there)" % b.id, c.where())
+        if not enabled:
+            rep.anchor_lost(R, "no function enables refinement (with_refinement(.., true))")
+            return
+    rf = enabled[0][0]
+    rep.ok(R, "refinement enabled in one function only: %s (%s)" % (rf.id, enabled[0][1].where()))
     # (b) recorder inside a deep traversal of `actual`
     subs = [c for c in rf.calls() if c.res.endswith("unify_type::subsumes")]
     if not subs:
@@ -131,9 +127,11 @@ def run(fb, rep):
         rep.violation(R, "shallow-recording", "Typecheck::refines records refinable skolems %s: skolems nested inside the scrutinee type's arguments "
                       "are refined by the unifier but never reset" % ("outside a deep traversal of `actual`" if shallow else "?"), rf.where())
     # (c) enter/exit/reset pairing in the match case
-    tcs = [b for b in fb.bodies.values() if b.id.endswith("Typecheck::<'a, 'ast>::typecheck_") and b.kind == "fn"]
+    # the match case is found by role: the function that opens a scope of refined_variables
+    tcs = [b for b in fb.bodies.values() if b.crate.name == "gluon_check" and b.kind == "fn" and any(
+        c.res.endswith("ScopedMap::<K, V>::enter_scope") and c.args and _is_refined_recv(b, c.args[0]) for c in b.calls())]
     if len(tcs) != 1:
-        rep.anchor_lost(R, "Typecheck::typecheck_")
+        rep.anchor_lost(R, "the function that opens a refined_variables scope per match alternative (%d found)" % len(tcs))
         return
     t = tcs[0]
     enters = [c for c in t.calls() if c.res.endswith("ScopedMap::<K, V>::enter_scope") and c.args and _is_refined_recv(t, c.args[0])]
